@@ -173,11 +173,14 @@ func scenarioEvQuit(cfg config, r *hx.Rng) (rec, []mmRec) {
 			// somebody subscribes while publishers may be blocked on a reader that quit; must not wait for them
 			var lateWG sync.WaitGroup
 			lateWG.Add(1)
+			lateDelay := time.Duration(100+rr.Intn(300)) * time.Microsecond
+			lateSubscribed := make(chan struct{})
 			go func() {
 				defer lateWG.Done()
 				defer c.guard("late subscriber")
-				time.Sleep(time.Duration(100+rr.Intn(300)) * time.Microsecond)
+				time.Sleep(lateDelay)
 				ch := ee.Subscribe(name(0))
+				close(lateSubscribed)
 				for range ch {
 				}
 			}()
@@ -206,7 +209,8 @@ func scenarioEvQuit(cfg config, r *hx.Rng) (rec, []mmRec) {
 			stopPub.Store(true)
 			pubs.Wait()
 			c.setParam("phase", 3)
-			_ = ee.Close() // ends the late subscriber if it subscribed after the first Close
+			<-lateSubscribed // Subscribe itself must not hang (watchdog)
+			_ = ee.Close()   // ends the late subscriber if it subscribed after the first Close
 			lateWG.Wait()
 			c.setParam("phase", 0)
 			c.tick(n + 1)
